@@ -1,6 +1,6 @@
 """C11 - websocket sessions follow the subscription protocol for every message sequence.
 
-extract (Gen/WsTables.lean) -> prove (Props/C11.lean over Model/Ws.lean) -> run scripted conversations against
+extract (Gen/WsTables.lean, Gen/WsCtx.lean) -> prove (Props/C11.lean over Model/Ws.lean) -> run scripted conversations against
 the real transport (go/harness/c11) -> trace membership in the model (lean/Driver/C11.lean) -> decide.
 """
 import os
@@ -76,6 +76,14 @@ def _classes(row):
         cls.add("closed-mid:" + m.group(1))
     if "connection_ack" not in frames:
         cls.add("init-not-accepted")
+    m = re.search(r"m:connection_init:-:(\w+):", script)
+    if m:
+        cls.add("init-payload:" + {"n": "absent", "nul": "null", "obj": "empty-object", "tok": "non-empty"}.get(m.group(1), m.group(1)))
+        if m.group(1) in ("obj", "tok"):
+            if re.search(r"m:(stop|complete):", script):
+                cls.add("init-payload+stop")
+            if re.search(r" (sc|a|z|g|m:connection_terminate:\S+)~?( |$)", script):
+                cls.add("init-payload+close")
     if re.search(r"m:(stop|complete):", script):
         cls.add("stop")
     if re.search(r"m:(start|subscribe):[^:]+:(num|badq|pq|n|obj|rej):", script) and "connection_ack" in frames:
@@ -130,7 +138,7 @@ def run(ctx):
         "the ping read-deadline (PingPongInterval without MissingPongOk) is wall-clock behaviour and only appears as a read error of the reader thread (`eof`) in the model",
         "gqlparser / executor (CreateOperationContext, DispatchOperation) are abstracted to the payload classes sub / badq / pq / num / none of the model; the controllable ExecutableSchema of the harness stands for generated resolver code",
     ]
-    ok_extract = ctx.extract("WsTables")
+    ok_extract = ctx.extract("WsTables", "WsCtx")
     proved = ok_extract and ctx.prove(props=["GqlgenVerif.Props.C11"])
     if ok_extract and not proved:
         ctx.cov["proof_failure"] = ctx.proof_failure
@@ -251,7 +259,7 @@ def run(ctx):
     ctx.cov.update({
         "evaluations": n_total,
         "distinct_nontrivial": len(nontrivial),
-        "rule": "one evaluation = one scripted conversation run against the real transport and decided for membership in the model. Scripts: every first message x {alone, +init+start, after server cancel}; all words up to length 4 (quick) / 5 (thorough) over {start1,start2,stop1,emit,end,panic,terminate,cancel} after init; all words up to length 2/3 over a 19-symbol alphabet after init+start; ~50 directed adversarial shapes x 6 configurations (duplicate ids, id reuse, stop racing completion, close during send, queued messages behind a closing one, stubborn resolvers, bursts without settling); seeded random conversations of length 4-20 (10% malformed stream). Non-trivial = anything but a plain init/start/emit/end conversation without race markers, errors, closes or special configuration",
+        "rule": "one evaluation = one scripted conversation run against the real transport and decided for membership in the model. Scripts: every first message x {alone, +init+start, after server cancel}; all words up to length 4 (quick) / 5 (thorough) over {start1,start2,stop1,emit,end,panic,terminate,cancel} after init; all words up to length 2/3 over a 19-symbol alphabet after init+start; ~50 directed adversarial shapes x 6 configurations (duplicate ids, id reuse, stop racing completion, close during send, queued messages behind a closing one, stubborn resolvers, bursts without settling), the plain-init ones also with a non-empty init payload; the init dimension: connection_init payload {absent, null, {}, non-empty} x InitFunc result {same context, derived context + ack payload, detached context} x all words up to length 2 (3 in thorough for the plain InitFunc) over the ways an operation ends {stop, result, end, error, panic, terminate, server cancel, abrupt close, close frame, undecodable frame, duplicate id, stop of another id} followed by a requested result, the same with stubborn resolvers / racing steps, and two-operation shapes; seeded random conversations of length 4-20 (10% malformed stream). Non-trivial = anything but a plain init/start/emit/end conversation without race markers, errors, closes or special configuration",
         "input_distribution": dict(dist),
         "traces_validated_against_impl": n_total,
         "first_pass_nonmembers": first_pass_nonmembers,
